@@ -2,6 +2,7 @@
 Spec: spec/Server.tla (+ServerGen, ServerTrace). Driver: qxv server (real QXmppServer on loopback,
 scripted raw TCP clients, password checker whose asynchronous replies the harness finishes)."""
 import collections
+import json
 import os
 from concurrent.futures import ThreadPoolExecutor
 
@@ -57,7 +58,7 @@ EMBED = ("embedEmpty", "embedBareEmpty", "embedSlashEmpty", "embedKnown")
 PROBE = [{"a": "Bind", "r": "ra"}, {"a": "Stanza", "k": "message", "f": "absent", "t": "victimFull"}]
 
 
-def _probed(behs, always_both=False):
+def _probed(behs, always_both=False, late_reply=True):
     out = []
     for b in behs:
         steps = b["steps"]
@@ -68,13 +69,20 @@ def _probed(behs, always_both=False):
             # (3) credentials the model refuses without asking the checker (a user name that is not a
             # localpart): an implementation that did ask is now waiting for the verdict -- deliver it,
             # complete the exchange, then identify
+            # (4) a lookup is (probably) still outstanding -- more credential-carrying steps than
+            # replies: deliver a verdict now, whatever has happened to the exchange or the stream in the
+            # meantime (superseded, refused, closed: the reply object may be gone), then identify
+            asks = sum(1 for s in steps if s["a"] in ("Auth", "Response") and s.get("cred") not in (None, "empty", "malformed"))
+            if (late_reply and asks > sum(1 for s in steps if s["a"] == "Reply") and steps[-1]["a"] != "Reply"
+                    and steps[-1].get("cred") not in EMBED):
+                out.append(dict(b, steps=steps + [{"a": "Reply", "i": 1}, {"a": "Response", "ver": ver, "cred": "empty"}] + PROBE))
             if steps[-1].get("cred") in EMBED:
                 out.append(dict(b, steps=steps + [{"a": "Reply", "i": 1}] + PROBE))
                 out.append(dict(b, steps=steps + [{"a": "Reply", "i": 1}, {"a": "Response", "ver": ver, "cred": "empty"}] + PROBE))
     return out
 
 
-def _replay_and_validate(chk, behs, tag, symbolize=False):
+def _replay_and_validate(chk, behs, tag, symbolize=False, keep_all=False):
     """Replay behaviours on the real server in PAR slices and validate each trace with TLC.
     Returns dict(cases, lines, ndiv, divs, ncrash, crashes, viol, traces, ...):
       viol    = list of (case id, step number inside the execution, predicate[whose address])
@@ -128,17 +136,26 @@ def _replay_and_validate(chk, behs, tag, symbolize=False):
         res["sanitizer"] += r["sanitizer"]
         res["sanitizer_raw"] = res.get("sanitizer_raw", "") + r["stderr"][-20000:]
         reset_line = {}
+        # (lines are parsed only where needed: a thorough trace has more than a million of them)
         cur = None
-        for ln, o in enumerate(vf.read_ndjson(trace), start=1):
-            if o.get("e") == "Reset":
-                cur = str(o["case"])
-                reset_line[cur] = ln
-                res["traces"][cur] = [o]
-            elif o.get("e") == "Crash":
-                c = str(o["case"])
-                res["crashes"].append((c, len(res["traces"].get(c, [])) - 1 if c in res["traces"] else 0))
-            elif cur is not None:
-                res["traces"][cur].append(o)
+        steps_of = {}
+        wanted = {v["case"] for v in s["viol"]} if not keep_all else None
+        with open(trace) as f:
+            for ln, line in enumerate(f, start=1):
+                if '"e":"Reset"' in line:
+                    o = json.loads(line)
+                    cur = str(o["case"])
+                    reset_line[cur] = ln
+                    steps_of[cur] = 0
+                    if wanted is None or cur in wanted:
+                        res["traces"][cur] = [o]
+                elif '"e":"Crash"' in line:
+                    c = str(json.loads(line)["case"])
+                    res["crashes"].append((c, steps_of.get(c, 0)))
+                elif cur is not None:
+                    steps_of[cur] += 1
+                    if cur in res["traces"]:
+                        res["traces"][cur].append(json.loads(line))
         for v in s["viol"]:
             prop = v["prop"] + (f"[{v['who'] or 'nobody'}]" if v["prop"] in ("IdentityApproved", "RoutedStamped") else "")
             res["viol"].append((v["case"], v["line"] - reset_line[v["case"]], prop))
@@ -170,7 +187,12 @@ def run(chk, replay=None):
         # refusals; the harness ends an execution where the real server closes the stream)
         tourr, gen["tour_retries"] = vf.tlc_gen("ServerGen.tla", "ServerGenTourRetry.cfg" if quick else "ServerGenTourRetryW.cfg")
         allr, gen["all_sasl_sequences_retries"] = vf.tlc_gen("ServerGen.tla", "ServerGenAllRetry.cfg" if quick else "ServerGenAllRetry7.cfg")
-        behs = _probed(tour1 + tour2 + tourf + tourc + tourr) + [dict(b, steps=b["steps"] + PROBE) for b in allr]
+        # the password checker as an asynchronous party: several lookups outstanding on one exchange,
+        # answered in any order, with further client elements in between (all sequences, as-built no-retry model)
+        alla, gen["all_sasl_sequences_async_lookups"] = vf.tlc_gen("ServerGen.tla", "ServerGenAllAsync.cfg" if quick else "ServerGenAllAsync3.cfg")
+        # (the late-verdict suffix everywhere in the thorough tier; in the quick tier on the tours with outstanding lookups)
+        behs = (_probed(tour1 + tourf + tourc, late_reply=not quick) + _probed(tour2 + tourr)
+                + [dict(b, steps=b["steps"] + PROBE) for b in allr + alla])
         if quick:
             sim, gen["random_walks_full_alphabet"] = vf.tlc_simulate("ServerGen.tla", "ServerGenSim.cfg", num=1500, depth=12, seed=chk.seed)
             behs += sim
@@ -182,7 +204,8 @@ def run(chk, replay=None):
             ar2, gen["all_sasl_sequences_retries_sasl2"] = vf.tlc_gen("ServerGen.tla", "ServerGenAllRetryS2.cfg")
             arp, gen["all_sasl_sequences_retries_plain_digest"] = vf.tlc_gen("ServerGen.tla", "ServerGenAllRetryP.cfg")
             chk.mc(vf.tlc_mc("Server.tla", "ServerRetry.cfg", workers=4), "ServerRetry.cfg")
-            behs += _probed(t3 + t4) + allp + sim + [dict(b, steps=b["steps"] + PROBE) for b in ar2 + arp]
+            aa2, gen["all_sasl_sequences_async_lookups_sasl2"] = vf.tlc_gen("ServerGen.tla", "ServerGenAllAsyncS2.cfg")
+            behs += _probed(t3 + t4, late_reply=False) + allp + sim + [dict(b, steps=b["steps"] + PROBE) for b in ar2 + arp + aa2]
         behs = vf.maximal_behaviours(behs)
         chk.cov["generation"] = gen
     vf.write_ndjson(chk.path("behaviours.ndjson"), behs)
@@ -237,7 +260,7 @@ def run(chk, replay=None):
     top = (list(kinds.values()) + rest)[:REPORT]
     if top:
         again = [{"steps": b["steps"][:stepno]} for _, (b, _props, stepno) in top]
-        res2 = _replay_and_validate(chk, again, "confirm", symbolize=True)
+        res2 = _replay_and_validate(chk, again, "confirm", symbolize=True, keep_all=True)
         first2 = _first_violations(res2["viol"])
         for i, (sig, (b, props, stepno)) in enumerate(top):
             c2 = f"s{i + 1}"
